@@ -78,11 +78,16 @@ func (h *c20Handler) ServeHTTP(rw http.ResponseWriter, r *http.Request) {
 	if sc != nil {
 		inv.Script = sc.Script
 		switch sc.Script {
-		case "sleep", "near-timeout":
+		case "sleep":
+			zsim.Sleep(sc.Service)
+		case "near-timeout":
+			h.w.Fault("request.near-timeout")
 			zsim.Sleep(sc.Service)
 		case "hang":
+			h.w.Fault("request.hang")
 			zsim.Block("handler.hang", func() bool { return false })
 		case "panic":
+			h.w.Fault("request.handler-panic")
 			panic("handler panic (injected)")
 		}
 	}
@@ -344,6 +349,27 @@ func runC20(t *zsim.Tape, cfg *hlib.Config) *hlib.Outcome {
 		out.Note["permuted:"+site] += n
 	}
 	out.Note["worker-spawns"] = countEvents(k, "spawn")
+	for _, p := range k.Procs() {
+		if p.PPid != master.Pid || !p.Exited {
+			continue
+		}
+		switch {
+		case p.Killed:
+			out.Probes["worker-exit:killed-by-simulator"]++
+		case p.ExitCode == 1:
+			out.Probes["worker-exit:timeout-or-orphan(status 1)"]++
+		case p.ExitCode == 2:
+			out.Probes["worker-exit:handler-panic(status 2)"]++
+		default:
+			out.Probes["worker-exit:accept-loop-returned(status 0)"]++
+		}
+	}
+	if maxLive == sc.MaxProcs && sc.MaxProcs > sc.InitProcs {
+		out.Probes["pool-grew-to-max-procs"]++
+	}
+	if len(liveEnd) == sc.InitProcs {
+		out.Probes["quiet-pool-exactly-init-procs"]++
+	}
 	fail := func(sig, detail string) *hlib.Outcome {
 		out.Sig = sig
 		out.Detail = detail + "\n  " + sc.Summary
